@@ -139,6 +139,6 @@ def run(ctx, tier):
             'Decides the lock-scope part of isolation for all schedules: (atomic-begin) a single exclusively held lock covers the reader\'s choice of snapshot (header read), its '
             'registration in the open-reader registry and the writer\'s decision which pending pages to release, and the header is read once per begin; (publish-order) data pages '
             'are written and synced before the header is written, nothing follows the header, and the shared free list changes only behind the header write (C02.O1-O3, C11.O4); '
-            '(writer-snapshot) a writer reads header and free list only after it owns the writer lock; (registry-discipline, deregister-only-own) a reader stays registered exactly while it is open (shared with C03). NOT decided: linearizability of what readers observe, coherence of write(2) '
+            '(writer-snapshot) a writer reads header and free list only after it owns the writer lock; (registry-discipline, deregister-only-own) a reader stays registered exactly while it is open (shared with C03). (map-covers-snapshot) the remap holds exclusively a lock every reader keeps shared, or begin clones the map only after the header read; (snapshot-source, snapshot-fixed) the header comes from the mapped file only and a live transaction\'s snapshot fields are stored only by the commit. NOT decided: linearizability of what readers observe, coherence of write(2) '
             'with a MAP_SHARED mapping, fairness.'),
         assumptions=['std::sync::Mutex provides mutual exclusion and happens-before', 'write(2) to the file is coherent with MAP_SHARED mappings of it (Linux page cache)'])
